@@ -28,12 +28,14 @@ var rec = vh.NewRecorder("C17", "access-control",
 func TestMain(m *testing.M) { vh.Main(m, rec) }
 
 type Step struct {
-	Kind    string `json:"kind"`    // add | list | delete | poll | fetch | respond | user
-	Caller  string `json:"caller"`  // identity name
-	Backend string `json:"backend"` // backend slot name, "unknown" or ""
-	Req     string `json:"req"`     // own | foreign | unknown | empty
-	Path    string `json:"path,omitempty"`
-	Variant int    `json:"variant,omitempty"` // add: 0 = the slot's own definition, 1 = another agent account, 2 = another end user
+	Kind      string `json:"kind"`    // add | list | delete | poll | fetch | respond | user
+	Caller    string `json:"caller"`  // identity name
+	Backend   string `json:"backend"` // backend slot name, "unknown" or ""
+	Req       string `json:"req"`     // own | foreign | unknown | empty
+	Path      string `json:"path,omitempty"`
+	Variant   int    `json:"variant,omitempty"`   // add: 0 = the slot's own definition, 1 = another agent account, 2 = another end user
+	Long      bool   `json:"long_url,omitempty"`  // user: a fixed URL (per case) of more than 250 bytes instead of a unique one
+	Cacheable bool   `json:"cacheable,omitempty"` // respond: the posted response carries no Cache-Control
 }
 
 type Case struct {
@@ -50,10 +52,11 @@ var slots = map[string]bdef{
 	"B2": {"b2", "agent2@example.com", "u2@example.com", "/two"},
 	"B3": {"b3", "agent3@example.com", "allUsers", "/shared"},
 	"B4": {"b4", "agent1@example.com", "u2@example.com", "/four"}, // same agent account as B1
+	"B5": {"b5", "agent2@example.com", "u2@example.com", "/one"},  // same prefix as B1, another end user
 }
 
 var (
-	slotNames   = []string{"B1", "B2", "B3", "B4"}
+	slotNames   = []string{"B1", "B2", "B3", "B4", "B5"}
 	adminCaller = []string{"header-admin", "oauth-admin", "user-nonadmin", "oauth-nonadmin", "anonymous", "agent1"}
 	agentCaller = []string{"agent1", "agent2", "agent3", "stranger", "none", "oauth-admin", "user-u1"}
 	userCaller  = []string{"u1", "u2", "anonymous", "u3"}
@@ -90,11 +93,27 @@ func genCase(t *rapid.T) Case {
 		}
 	}
 	// generator-side view of which agent account each slot is currently registered for
-	orig := map[string]string{"B1": "agent1", "B2": "agent2", "B3": "agent3", "B4": "agent1"}
-	alt := map[string]string{"B1": "agent2", "B2": "agent3", "B3": "agent1", "B4": "agent2"}
+	orig := map[string]string{"B1": "agent1", "B2": "agent2", "B3": "agent3", "B4": "agent1", "B5": "agent2"}
+	alt := map[string]string{"B1": "agent2", "B2": "agent3", "B3": "agent1", "B4": "agent2", "B5": "agent3"}
 	variant := map[string]int{}
 	n := rapid.IntRange(6, 30).Draw(t, "n")
 	for i := 0; i < n; i++ {
+		if rapid.IntRange(0, 9).Draw(t, "cacheProbe") == 0 {
+			// one user's cacheable GET of a long URL, then another user's GET of exactly the same URL
+			first, second := "u1", "u2"
+			fslot, fagent := "B1", orig["B1"]
+			if rapid.Bool().Draw(t, "cacheSwap") {
+				first, second, fslot, fagent = "u2", "u1", "B5", orig["B5"]
+			}
+			c.Steps = append(c.Steps,
+				Step{Kind: "add", Caller: "header-admin", Backend: "B1"}, Step{Kind: "add", Caller: "header-admin", Backend: "B5"},
+				Step{Kind: "user", Caller: first, Path: "/one", Long: true},
+				Step{Kind: "poll", Caller: fagent, Backend: fslot, Req: "own"},
+				Step{Kind: "respond", Caller: fagent, Backend: fslot, Req: "own", Cacheable: true},
+				Step{Kind: "user", Caller: second, Path: "/one", Long: true})
+			variant["B1"], variant["B5"] = 0, 0
+			continue
+		}
 		if rapid.IntRange(0, 7).Draw(t, "rotationProbe") == 0 {
 			// an agent account works, the administrator hands the backend id to another account, the old account tries again
 			slot := rapid.SampledFrom(slotNames).Draw(t, "rslot")
@@ -105,7 +124,7 @@ func genCase(t *rapid.T) Case {
 			kind := rapid.SampledFrom([]string{"poll", "fetch", "respond"}).Draw(t, "rkind")
 			c.Steps = append(c.Steps,
 				Step{Kind: "add", Caller: "header-admin", Backend: slot, Variant: variant[slot]},
-				Step{Kind: "user", Caller: map[string]string{"B1": "u1", "B2": "u2", "B3": "u3", "B4": "u2"}[slot], Path: map[string]string{"B1": "/one", "B2": "/two", "B3": "/shared", "B4": "/four"}[slot]},
+				Step{Kind: "user", Caller: map[string]string{"B1": "u1", "B2": "u2", "B3": "u3", "B4": "u2", "B5": "u2"}[slot], Path: map[string]string{"B1": "/one", "B2": "/two", "B3": "/shared", "B4": "/four", "B5": "/one"}[slot]},
 				Step{Kind: "poll", Caller: cur, Backend: slot, Req: "own"},
 				Step{Kind: "add", Caller: rapid.SampledFrom([]string{"header-admin", "oauth-admin"}).Draw(t, "radmin"), Backend: slot, Variant: nv},
 				Step{Kind: kind, Caller: cur, Backend: slot, Req: "own"})
@@ -431,7 +450,12 @@ func runCase(t vh.TB, c *Case) vh.Outcome {
 				}
 			case "respond":
 				tok := fmt.Sprintf("resp-%d-%d", run, i)
-				wire := fmt.Sprintf("HTTP/1.1 200 OK\r\nCache-Control: no-store\r\nX-Resp-Token: %s\r\nContent-Length: %d\r\n\r\n%s", tok, len(tok), tok)
+				cc := "Cache-Control: no-store\r\n"
+				if st.Cacheable {
+					cc = ""
+					o.Classes = append(o.Classes, "cacheable-response")
+				}
+				wire := fmt.Sprintf("HTTP/1.1 200 OK\r\n%sX-Resp-Token: %s\r\nContent-Length: %d\r\n\r\n%s", cc, tok, len(tok), tok)
 				resp := r.Do("agent", "POST", "/agent/response", agentHeaders(backendID, reqID), []byte(wire), id, 10*time.Second)
 				if resp.Err != nil {
 					return fail(i, "no answer: %v", resp.Err)
@@ -498,7 +522,11 @@ func runCase(t vh.TB, c *Case) vh.Outcome {
 			ridCh := make(chan string, 1)
 			go func() {
 				hdr := http.Header{"X-Client-Token": {tok}}
-				resp := r.Do("default", "GET", fmt.Sprintf("%s/%s?tok=%s", st.Path, tok, tok), hdr, nil, id, 45*time.Second)
+				uri := fmt.Sprintf("%s/%s?tok=%s", st.Path, tok, tok)
+				if st.Long {
+					uri = fmt.Sprintf("%s/long-%d?q=%s", st.Path, run, strings.Repeat("a", 260))
+				}
+				resp := r.Do("default", "GET", uri, hdr, nil, id, 45*time.Second)
 				ridCh <- resp.ReqID
 				p.done <- resp
 			}()
